@@ -459,6 +459,7 @@ theorem step_WF (w : World) (hw : WF w) (hs : InScope w.env) (op : Op) (hv : op.
         | fset => exact ⟨hw, Or.inl rfl⟩
         | dict => exact ⟨hw, Or.inl rfl⟩
         | opq _ => exact ⟨hw, Or.inl rfl⟩
+        | usr _ => exact ⟨hw, Or.inl rfl⟩
   | copy r =>
     rw [step_copy]
     cases hroot : w.root r with
